@@ -35,6 +35,9 @@ const (
 	maxFloatValuesCount   = 1 << 14 // 16384
 	maxStringValuesCount  = 256
 	maxGeneralValuesCount = 256
+
+	// Texts.
+	maxTextsCount = 1 << 16 // 65536
 )
 
 var intType = reflect.TypeFor[int]()
